@@ -1,5 +1,6 @@
 """C09 — halffaces around an edge in rotational order; in-cell adjacency involutive."""
 from props.kernel_check import run_kernel
+from vlib import probes
 
 
 def run(ctx):
@@ -7,3 +8,5 @@ def run(ctx):
         dict(profile="c09", kind="poly", traces=(64, 1000), ops=36, queries=0),
         dict(profile="c09", kind="tet", traces=(32, 400), ops=36, queries=0),
     ], level_when_proved="other")
+    ctx.coverage.update(probes.probe(ctx, "C09", "C09J", "C09J:pillow-adjacent-invalid",
+                                     "adjacent_halfface_in_cell returns Invalid in a closed cell containing both halffaces of a face"))
